@@ -11,7 +11,8 @@ from harness import scen
 from harness.gallina import glist, gn, gopt, gstr, gz
 
 ID = "C02"
-COQ_TARGETS = ["JsonDoc.vo", "Json.vo", "JsonProofs.vo", "JsonProofs2.vo", "JsonLoadProofs.vo", "JsonLex.vo", "CorrC02.vo", "Props/C02.vo", "PropsJson.vo"]
+COQ_TARGETS = ["JsonDoc.vo", "Json.vo", "JsonWf.vo", "JsonProofs.vo", "JsonProofs2.vo", "JsonLoadProofs.vo", "JsonLex.vo", "JsonDocOk.vo",
+               "JsonRoundtrip.vo", "CorrC02.vo", "Props/C02.vo", "PropsJson.vo"]
 PROPS_FILE = "Props/C02.v"
 CORR_IMPORTS = "Base Heap Schema Canon Reach JsonDoc Json CorrC02"
 OPEN_SCOPES = ["string_scope", "list_scope", "Z_scope"]
@@ -46,8 +47,11 @@ TRUSTED = [
     "ReachProofs / ReachSpec (ids_assigned, find_all_shape, find_all_each_once, find_all_closed, find_all_fs_stable, "
     "succs_declarative) for what the traversal returns and leaves behind; the former premises stableb (second traversal) "
     "and reader = denotation are theorems now (denote_save_json without stableb, load_json_is_denotation); lex_ok is "
-    "proved for the concrete UTF-8 / base64 codecs (std_lex_ok); doc_ok_json of the written document is proved for its "
-    "closed part (ids distinct, references resolve) and evaluated per case for value kinds and key legality",
+    "proved for the concrete UTF-8 / base64 codecs (std_lex_ok); doc_ok_json of the written document is a theorem for all "
+    "inputs (C02_json_doc_ok, coq/JsonDocOk.v) under the boolean premises wf_jsonb, ids_distinctb, refs_wfb and typed_jsonb "
+    "(coq/JsonWf.v: ids positive, sofaNums distinct, members indexed once with their own view's sofa, slots hold values of the "
+    "kind of their range) which are evaluated per case on the CAS the writer model leaves behind; hence C02_json_roundtrip has "
+    "no premise about the document, the reader or the definedness of the canonical content (C02_canon_json_after_save)",
 ]
 ASSUMPTIONS = [
     "user type names do not start with the reserved pseudo-package 'uima.noNamespace.' and do not end in '[]'",
